@@ -2443,7 +2443,7 @@ class Connection_decode( decide ):
             truth, machine=machine, source=source, path=path, data=data )
         if truth:
             pathsrc		= path + '.' + self.src
-            parameters		= defaults.Connection( **data[pathsrc] )
+            parameters		= defaults.Connection( large=self.lrg, **data[pathsrc] )
             data[pathsrc]	= parameters.decoding
 
         return target
